@@ -143,7 +143,7 @@ func checkC06(c c06Case, ctx *vCtx) *vFailure {
 		if c.Bin {
 			r := vRunBin(inv, 30*time.Second)
 			if r.Exit == -999 {
-				vFault("real binary timed out")
+				vHang("the real binary did not terminate within its time limit")
 			}
 			return r
 		}
